@@ -167,6 +167,11 @@ def replay_edges(ctx, cfg, tag, nrand, rand_len):
         for acc in ((ACCS[npaths % 2],) if ctx.quick else ACCS):
             jobs.append({"acc": acc, "limit": view[0], "T": view[1], "tick_ms": tick_for(ctx.rng, view[1]),
                          "seed": ctx.rng.getrandbits(40), "exec": True, "ops": acts})
+        # "mixed": a rustls AND an OpenSSL acceptor service on the same thread, operations alternating between them -
+        # the limit is per thread, so the specification (one counter) must explain this run as well
+        if not ctx.quick or npaths % 2 == 0:
+            jobs.append({"acc": "mixed", "limit": view[0], "T": view[1], "tick_ms": tick_for(ctx.rng, view[1]),
+                         "seed": ctx.rng.getrandbits(40), "exec": False, "ops": acts})
     del g
     sfile = os.path.join(ctx.workdir, "%s-schedules.ndjson" % tag)
     tfile = os.path.join(ctx.workdir, "%s-trace.ndjson" % tag)
@@ -226,7 +231,7 @@ def replay_edges(ctx, cfg, tag, nrand, rand_len):
     cov["random_runs"] += nrand
     cov["trace_records_judged_by_tlc"] += sum(len(x) for k, x in enumerate(rr) if to_check[k] not in rejected_idx)
     per = cov.setdefault("per_acceptor", {a: {"runs_replayed": 0, "runs_accepted_by_tlc": 0,
-                                              "executor_mode_runs_accepted_by_tlc": 0} for a in ACCS})
+                                              "executor_mode_runs_accepted_by_tlc": 0} for a in ACCS + ("mixed",)})
     for i, run in enumerate(runs):
         per[acc_of(run)]["runs_replayed"] += 1
     for k, i in enumerate(to_check):
@@ -251,6 +256,22 @@ def replay_edges(ctx, cfg, tag, nrand, rand_len):
     return summ
 
 
+def data_backpressure(ctx, rounds):
+    """Data-intact clause under transport back-pressure (differential): accepted rustls / OpenSSL streams over in-memory
+    transports of 1 MiB, 16 KiB, 4 KiB and 1 KiB; write_all + flush of 0 .. 70 000 bytes on one side while the other side
+    reads; both directions; nothing is written after the flush."""
+    tfile = os.path.join(ctx.workdir, "c18-data.ndjson")
+    r = vlib.run_harness("vtls", ["data", "--trace", tfile, "--seed", ctx.seed, "--rounds", rounds], timeout=900)
+    summ = json.loads(r.stdout.strip().splitlines()[-1])
+    ctx.cov["data_intact_backpressure"] = {"transfers": summ["runs"], "bytes": summ["bytes"], "failures": summ["mismatches"],
+                                           "transport_buffers": [1 << 20, 16384, 4096, 1024]}
+    ctx.cov["evaluations"] += summ["runs"]
+    for m in summ["first_mismatches"][:3]:
+        ctx.violation("c18:data:%s" % m.get("dir"), "%s acceptor, transport buffer %s bytes: %s bytes %s: %s" % (
+            m.get("acc"), m.get("buf"), m.get("n"), m.get("dir"), m.get("detail")),
+            {"mode": "data", "seed": ctx.seed, "rounds": rounds, "observed": m})
+
+
 def run(ctx):
     vlib.cargo_build(["vtls"])
     for m in (MOD, TMOD):
@@ -268,6 +289,7 @@ def run(ctx):
     else:
         replay_edges(ctx, "MC_C18_thorough.cfg", "c18t", nrand=3000, rand_len=60)
         replay_edges(ctx, "MC_C18_thorough_t3.cfg", "c18t3", nrand=0, rand_len=0)
+    data_backpressure(ctx, 3 if ctx.quick else 40)
     st = ctx.cov.get("driver_stats", {})
     for a in ACCS:      # every kind of observation must have been made on each acceptor
         seen = {k: st.get(k % a, 0) for k in ("res:%s:ok", "res:%s:tlserr", "res:%s:timeout", "ready:%s:ready",
@@ -308,4 +330,10 @@ def run(ctx):
 
 def replay(ctx, path):
     vlib.cargo_build(["vtls"])
+    rp = json.load(open(path))["replay"]
+    if rp.get("mode") == "data":
+        ctx.seed = rp["seed"]
+        data_backpressure(ctx, rp["rounds"])
+        ctx.cov.update({"distinct_nontrivial": 1, "states": 1, "transitions": 1, "samples": [rp["observed"]]})
+        return
     vlib.replay_flow(ctx, path, harness="vtls", signature=signature, tmodule_by_mode={"accept": (TMOD, TCFG)})
